@@ -305,7 +305,8 @@ PROPS["C17"] = {
                           "Failsafe.Tie.Execution.tie_isFirstAttempt", "Failsafe.Tie.Execution.tie_isRetry", "Failsafe.Tie.Execution.tie_attempts"],
     "diff": [COMPOSE_DIFF], "rule": COMPOSE_RULE, "assumptions": COMPOSE_ASSUME, "modelled": COMPOSE_MODELLED + [
         "Executions sampled in listeners is compared only in stacks without a hedge (a cancelled hedge attempt completes asynchronously); its final value after quiescence is always compared",
-        "start times / elapsed times (monotone clock readings) are not modelled"],
+        "start times / elapsed times (monotone clock readings) are not modelled",
+        "IsHedge is part of the function's event in model and DIFF (Run.hedgeAttempt, event name fnh); it is not the subject of a separate theorem"],
     "manifest": {
         "text": "Lean 4 theorems: Attempts = 1 + Retries + Hedges is an invariant of every policy layer over an arbitrary inner layer, hence of every execution of every policy list (induction over the list; retry and hedge by induction on their loops); an attempt rejected by an open breaker or a full bulkhead leaves invocations and Executions unchanged; the boolean flags agree with the counters (IsFirstAttempt iff Attempts = 1, IsRetry iff Attempts > 1, exactly one of them; proved about the getters regenerated from execution.go). Tie: GEN (the six statistics getters), FACTS (InitializeRetry / CopyForHedge / record bodies), DIFF sampling Attempts/Executions inside every listener and Retries/Hedges/Executions in the done event against the model's value at that point, and evaluating the flag clause on every execution object handed to the function, a fallback function or a listener.",
         "note": "Trusted: Lean kernel; fact extractor; harness. LastResult/LastError seen by each function invocation and fallback function are part of the DIFF event log (model field Run.last); time monotonicity is not modelled.",
